@@ -57,6 +57,9 @@ CHECKS = {
  "C18": ("model_checking", "Bounded-exhaustive enumeration of sources for a tags language with doc comments, @ignore, local scopes and Unicode identifiers (all strings of <=k lexemes, every placement of 0-4-byte characters before and inside up to three names on one line, classes whose tag completes after the tags inside them, 170-190-byte lines with a multi-byte character across byte 180, CRLF), one reused TagsContext; the emitted tag set and every field of every tag (ranges, trimmed line range, span, UTF-16 columns, docs, kind) are recomputed from the source bytes and our own tree evaluation.",
          "Locality: a name is local if an enclosing scope holds an earlier definition with the same text. A panic inside the code under test is reported as a violation.",
          "bounded-exhaustive input enumeration with per-tag recomputation from the source bytes", "DESIGN.md §2 C18"),
+ "C19": ("model_checking", "Explicit-state depth-first search over the real loader protocol run by real processes: 2 (thorough 3) loader processes built with hook H3 are stepped point by point by a scheduler that also injects crashes (SIGKILL of the process group at any point, including between the two halves of the library write) and timeout answers; visited-set on (per-loader point/result, lock, output class, temp files, budgets), every state re-reached by replaying its schedule from scratch; initial cache states {no library, stale, fresh} x {leftover temp} x {leftover lock}. Oracle: Ok results are the current version, no partial file is visible at the point before dlopen, and after a crash a fresh loader succeeds within one timeout answer.",
+         "The C compiler is replaced by a wrapper that copies a prebuilt library of the version named in parser.c in two halves. Modification times are set explicitly. One known finding (stale lock after a crash).",
+         "explicit-state DFS over process schedules, crash points and timeout answers on the real loader (controlled scheduler)", "DESIGN.md §2 C19"),
 }
 REASON_WIP = "check not built yet (work in progress; see DESIGN.md build order)"
 def main():
